@@ -184,3 +184,27 @@ impl ParentHandle {
         self.parent.tree_id().map(|t| *t)
     }
 }
+
+/// One item of `archiver::tree::TreeIterator` in plain data.
+#[derive(Clone, Debug)]
+pub enum IterItem {
+    /// `TreeType::NewTree((path, node, name))`
+    NewTree(PathBuf, Node, OsString),
+    /// `TreeType::EndTree`
+    EndTree,
+    /// `TreeType::Other((path, node, _))`
+    Other(PathBuf, Node),
+}
+
+/// `TreeIterator::new(items).take(limit)`: the items as `Archiver::archive` feeds them (path of the
+/// directory itself for directories, of the containing directory otherwise).
+pub fn tree_iterator_items(items: Vec<(PathBuf, Node)>, limit: usize) -> Vec<IterItem> {
+    crate::archiver::tree::TreeIterator::new(items.into_iter().map(|(p, n)| (p, n, ())))
+        .take(limit)
+        .map(|t| match t {
+            TreeType::NewTree((p, n, name)) => IterItem::NewTree(p, n, name),
+            TreeType::EndTree => IterItem::EndTree,
+            TreeType::Other((p, n, ())) => IterItem::Other(p, n),
+        })
+        .collect()
+}
